@@ -22,6 +22,7 @@ import (
 	"bytes"
 	"fmt"
 	"hash/fnv"
+	"io"
 	"os"
 	"os/exec"
 	"path/filepath"
@@ -31,6 +32,7 @@ import (
 
 	"github.com/evolbioinfo/goalign/align"
 	"github.com/evolbioinfo/goalign/io/fasta"
+	"github.com/evolbioinfo/goalign/io/phylip"
 )
 
 type cliFront struct {
@@ -39,6 +41,7 @@ type cliFront struct {
 	max     int
 	dir     string
 	ran     int
+	multi   int
 	skipped map[string]int
 }
 
@@ -62,7 +65,7 @@ func newCliFront(env *Env) *cliFront {
 
 func (c *cliFront) close() {
 	os.RemoveAll(c.dir)
-	fmt.Fprintf(os.Stderr, "driver: cli front ran %d commands, skipped %v\n", c.ran, c.skipped)
+	fmt.Fprintf(os.Stderr, "driver: cli front ran %d commands (%d on two-alignment inputs), skipped %v\n", c.ran, c.multi, c.skipped)
 }
 
 // cliCall describes one command line: argv, the files it writes, and how its return record is rebuilt.
@@ -76,9 +79,105 @@ type cliCall struct {
 	outBag bool
 	// files: the command writes one alignment per file (in this order) instead of printing one
 	files []string
+	// multiOK: the command handles every alignment of its input in turn; side: side files holding one block of lines per
+	// alignment (how many lines the first alignment of a two-alignment input accounts for)
+	multiOK bool
+	side    []sideFile
+	// outAlphabet: alphabet of what the command prints when it is not the receiver's (0 = the receiver's)
+	outAlphabet int
 	// okOnly: the command works on every sequence and stops at the first failing one: a failure says nothing about
 	// the one the step asks for, and is not logged
 	okOnly bool
+}
+
+// commands that handle every alignment of their input in turn and print one result per alignment
+var multiOps = map[string]bool{"RemoveGapSites": true, "RemoveCharacterSites": true, "RemoveMajorityCharacterSites": true,
+	"RemoveGapSeqs": true, "RemoveCharacterSeqs": true, "ReverseComplement": true, "Sort": true, "Consensus": true,
+	"DiffWithFirst": true, "ReplaceMatchChars": true, "Translate": true, "TranslateByReference": true, "Deduplicate": true,
+	"Compress": true, "Mask": true, "MaskOccurences": true, "MaskUnique": true, "SubAlign": true, "RefCoordinates": true,
+	"Replace": true, "AppendSeqIdentifier": true, "TrimSequences": true, "ShuffleSequences": true, "Swap": true,
+	"Recombine": true, "Mutate": true, "AddGaps": true, "Sample": true, "SelectSites": true, "RefSites": true,
+	"InversePositions": true, "Transpose": true, "CodonAlign": true}
+
+type sideFile struct {
+	path  string
+	first func(out1, decoy align.Alignment) int
+}
+
+// decoyOf builds the alignment that precedes the receiver in a two-alignment input: the same rows but the last (when there
+// are three or more), every sequence shifted right by one column behind a gap.  Whatever a command keeps from one alignment
+// to the next (converted coordinates, cached references, buffers) then meets different data.
+func decoyOf(al align.Alignment) align.Alignment {
+	d := align.NewAlign(al.Alphabet())
+	n := al.NbSequences()
+	k := 0
+	al.IterateChar(func(name string, s []uint8) bool {
+		k++
+		if n >= 3 && k == n {
+			return true
+		}
+		t := make([]byte, len(s))
+		if len(s) > 0 {
+			t[0] = '-'
+			copy(t[1:], s[:len(s)-1])
+		}
+		d.AddSequenceChar(name, t, "")
+		return false
+	})
+	return d
+}
+
+// phylipAll parses a stream of Phylip alignments.
+func phylipAll(text string, alphabet int) ([]align.Alignment, bool) {
+	p := phylip.NewParser(strings.NewReader(text), false)
+	p.Alphabet(alphabet)
+	out := []align.Alignment{}
+	for {
+		al, err := p.Parse()
+		if err != nil {
+			if err == io.EOF || strings.Contains(err.Error(), "EOF") {
+				return out, true
+			}
+			return out, false
+		}
+		if al == nil { // end of the stream
+			return out, true
+		}
+		out = append(out, al)
+		if len(out) > 8 {
+			return out, false
+		}
+	}
+}
+
+func sameAlign(a, b align.Alignment) bool {
+	if a.NbSequences() != b.NbSequences() || a.Alphabet() != b.Alphabet() {
+		return false
+	}
+	same := true
+	i := 0
+	a.IterateChar(func(name string, s []uint8) bool {
+		n2, _ := b.GetSequenceNameById(i)
+		s2, _ := b.GetSequenceCharById(i)
+		if name != n2 || string(s) != string(s2) {
+			same = false
+		}
+		i++
+		return false
+	})
+	return same
+}
+
+func dropLines(path string, n int) {
+	b, err := os.ReadFile(path)
+	if err != nil {
+		return
+	}
+	lines := strings.SplitAfter(string(b), "\n")
+	if n > len(lines) {
+		n = len(lines)
+	}
+	os.WriteFile(path, []byte(strings.Join(lines[n:], "")), 0o644)
 }
 
 var reStart = regexp.MustCompile(`number of start [^=]*=(-?\d+)`)
@@ -167,7 +266,8 @@ func (c *cliFront) plan(h *heapRun, o *obj, st Step) (*cliCall, string) {
 				}
 			}
 		}
-		return &cliCall{argv: argv, ret: func(stdout, stderr string, ret map[string]interface{}) bool {
+		return &cliCall{argv: argv, side: []sideFile{{kept, func(out1, decoy align.Alignment) int { return out1.Length() }},
+			{rm, func(out1, decoy align.Alignment) int { return decoy.Length() - out1.Length() }}}, ret: func(stdout, stderr string, ret map[string]interface{}) bool {
 			m1, m2 := reStart.FindStringSubmatch(stderr), reEnd.FindStringSubmatch(stderr)
 			k, ok1 := readInts(kept)
 			r, ok2 := readInts(rm)
@@ -712,6 +812,37 @@ func (c *cliFront) plan(h *heapRun, o *obj, st Step) (*cliCall, string) {
 			return nil, "code"
 		}
 		return &cliCall{argv: []string{"translate", "--phase", strconv.Itoa(ai(a, "frame")), "--genetic-code", code, "--ref-seq=" + string(ref)}}, ""
+	case "CodonAlign":
+		// the nucleotide sequences go through a second FASTA file, read by the command with automatic alphabet detection
+		nto := h.get(ai(a, "nt"))
+		if !needsAlign() || nto.sb.NbSequences() == 0 {
+			return nil, "bag"
+		}
+		var b bytes.Buffer
+		type row struct{ n, s string }
+		rows := []row{}
+		nto.sb.IterateChar(func(name string, s []uint8) bool {
+			rows = append(rows, row{name, string(s)})
+			fmt.Fprintf(&b, ">%s\n%s\n", name, string(s))
+			return false
+		})
+		back, err := fasta.NewParser(bytes.NewReader(b.Bytes())).ParseUnalign()
+		if err != nil || back.NbSequences() != len(rows) || back.Alphabet() != nto.sb.Alphabet() {
+			return nil, "fasta"
+		}
+		k, same := 0, true
+		back.IterateChar(func(name string, s []uint8) bool {
+			if name != rows[k].n || string(s) != rows[k].s {
+				same = false
+			}
+			k++
+			return false
+		})
+		ntf := filepath.Join(c.dir, "nt.fa")
+		if !same || os.WriteFile(ntf, b.Bytes(), 0o644) != nil {
+			return nil, "fasta"
+		}
+		return &cliCall{argv: []string{"codonalign", "-f", ntf}, outAlphabet: align.NUCLEOTIDS}, ""
 	case "Deduplicate":
 		logf := filepath.Join(c.dir, "dedup.log")
 		os.Remove(logf)
@@ -719,7 +850,7 @@ func (c *cliFront) plan(h *heapRun, o *obj, st Step) (*cliCall, string) {
 		if ab(a, "nasgap") {
 			argv = append(argv, "--n-as-gap")
 		}
-		return &cliCall{argv: argv, ret: func(stdout, stderr string, ret map[string]interface{}) bool {
+		return &cliCall{argv: argv, side: []sideFile{{logf, func(out1, decoy align.Alignment) int { return out1.NbSequences() }}}, ret: func(stdout, stderr string, ret map[string]interface{}) bool {
 			b, err := os.ReadFile(logf)
 			if err != nil {
 				return false
@@ -752,7 +883,7 @@ func (c *cliFront) plan(h *heapRun, o *obj, st Step) (*cliCall, string) {
 		}
 		wf := filepath.Join(c.dir, "weights")
 		os.Remove(wf)
-		return &cliCall{argv: []string{"compress", "--weight-out", wf}, ret: func(stdout, stderr string, ret map[string]interface{}) bool {
+		return &cliCall{argv: []string{"compress", "--weight-out", wf}, side: []sideFile{{wf, func(out1, decoy align.Alignment) int { return out1.Length() }}}, ret: func(stdout, stderr string, ret map[string]interface{}) bool {
 			w, ok := readInts(wf)
 			if !ok {
 				return false
@@ -944,12 +1075,26 @@ func (h *heapRun) cliStep(env *Env, c *cliFront, id string, i int, st Step) {
 		}
 		return
 	}
+	call.multiOK = multiOps[st.Op]
 	in, alpha, ok := fastaOf(o)
 	if !ok {
 		c.skipped["fasta"]++
 		return
 	}
 	argv := append(append([]string{}, call.argv...), "--alphabet", alpha)
+	// one time in three (when the command loops over its input) the receiver comes second in a two-alignment Phylip input
+	var decoy align.Alignment
+	if call.multiOK && o.al != nil && o.al.Length() >= 1 && (hs.Sum32()/uint32(c.every))%3 == 1 {
+		decoy = decoyOf(o.al)
+		stream := phylip.WriteAlignment(decoy, false, false, false) + phylip.WriteAlignment(o.al, false, false, false)
+		back, good := phylipAll(stream, o.al.Alphabet())
+		if good && len(back) == 2 && sameAlign(back[0], decoy) && sameAlign(back[1], o.al) {
+			in = []byte(stream)
+			argv = append(argv, "-p")
+		} else {
+			decoy = nil
+		}
+	}
 	cmd := exec.Command(c.bin, argv...)
 	cmd.Dir = c.dir // (rename --regexp writes a file called "none" into the working directory)
 	cmd.Stdin = bytes.NewReader(in)
@@ -964,6 +1109,32 @@ func (h *heapRun) cliStep(env *Env, c *cliFront, id string, i int, st Step) {
 		ev.A["a"] = map[string]interface{}{"z": 0}
 	}
 	added := 0
+	outText, errText := stdout.String(), stderr.String()
+	if decoy != nil {
+		// only the receiver's share of the outputs is judged; a failure cannot be attributed to either alignment
+		if err != nil {
+			c.skipped["multi"]++
+			return
+		}
+		outs, good := phylipAll(outText, align.BOTH)
+		if !good || len(outs) != 2 {
+			c.skipped["multi"]++
+			return
+		}
+		var b bytes.Buffer
+		outs[1].IterateChar(func(name string, s []uint8) bool {
+			fmt.Fprintf(&b, ">%s\n%s\n", name, string(s))
+			return false
+		})
+		outText = b.String()
+		for _, sf := range call.side {
+			dropLines(sf.path, sf.first(outs[0], decoy))
+		}
+		el := strings.Split(strings.TrimRight(errText, "\n"), "\n")
+		errText = strings.Join(el[len(el)/2:], "\n")
+		ev.A["multi"] = true
+		c.multi++
+	}
 	if err != nil && call.okOnly {
 		if _, isExit := err.(*exec.ExitError); isExit {
 			c.skipped["otherrow"]++
@@ -981,7 +1152,7 @@ func (h *heapRun) cliStep(env *Env, c *cliFront, id string, i int, st Step) {
 		}
 	} else if call.query {
 		ev.Kind = "ok"
-		full := call.ret(stdout.String(), stderr.String(), ret)
+		full := call.ret(outText, errText, ret)
 		if !full {
 			c.skipped["output"]++
 			return
@@ -989,7 +1160,7 @@ func (h *heapRun) cliStep(env *Env, c *cliFront, id string, i int, st Step) {
 		ev.A["full"] = true
 	} else {
 		// what the command printed (or wrote, one file per object), as objects of the receiver's kind and alphabet
-		texts := []string{stdout.String()}
+		texts := []string{outText}
 		if call.files != nil {
 			texts = []string{}
 			for _, f := range call.files {
@@ -1004,11 +1175,15 @@ func (h *heapRun) cliStep(env *Env, c *cliFront, id string, i int, st Step) {
 		nadded := 0
 		for _, text := range texts {
 			var no *obj
+			outAl := o.sb.Alphabet()
+			if call.outAlphabet != 0 {
+				outAl = call.outAlphabet
+			}
 			if o.al != nil && !call.outBag {
-				al := align.NewAlign(o.sb.Alphabet())
+				al := align.NewAlign(outAl)
 				no = &obj{"align", al, al}
 			} else {
-				no = &obj{"bag", nil, align.NewSeqBag(o.sb.Alphabet())}
+				no = &obj{"bag", nil, align.NewSeqBag(outAl)}
 			}
 			// the FASTA the writer prints: a '>' line per entry, then its residues (possibly none) on the following lines
 			good := true
@@ -1049,7 +1224,7 @@ func (h *heapRun) cliStep(env *Env, c *cliFront, id string, i int, st Step) {
 		added = nadded
 		ev.Kind = "ok"
 		if call.ret != nil {
-			ev.A["full"] = call.ret(stdout.String(), stderr.String(), ret)
+			ev.A["full"] = call.ret(outText, errText, ret)
 		}
 	}
 	ev.Objs = make([]ObjView, len(h.objs))
